@@ -259,7 +259,8 @@ class kMinPathError(pathmodel.AbstractPathModelDAG):
         )
         # For integer weights the bound is rounded up: int() would truncate 2.9999999999999996 to 2 (and 0.9999999999999999 to 0)
         self.w_max = self.k * (math.ceil(max_flow_value) if self.weight_type == int else float(max_flow_value))
-        self.w_max = max(self.w_max, max(self.solution_weights_superset or [0]))
+        # (all the given weights can go through the same edge: the error of an edge, hence the slack a path needs, reaches their sum)
+        self.w_max = max(self.w_max, sum(float(weight) for weight in (self.solution_weights_superset or [])))
 
         self.path_length_ranges = path_length_ranges
         self.path_length_factors = path_length_factors
